@@ -12,10 +12,12 @@ class D:
     """Draw helper: every random choice goes through hypothesis so that cases replay
     from the seed and shrink."""
 
-    def __init__(self, draw):
+    def __init__(self, draw, force=()):
+        """force: triggers a property keeps switched ON although a known finding is open there, because its own
+        oracle exempts exactly the positions the finding affects (the exemptions are counted by that oracle)"""
         self._draw = draw
         self.features = set()
-        self._open = findings.open_triggers()
+        self._open = {k: v for k, v in findings.open_triggers().items() if k not in set(force)}
 
     def draw(self, strategy):
         return self._draw(strategy)
